@@ -499,7 +499,7 @@ def run_processes(scen: dict, db: str) -> list[dict]:
                "stream_filter": scen.get("stream_filter", {}),
                "filter_names": scen.get("filter_names", [])}
         try:
-            st, val = core.run_forked(_proc, arg, wall_limit=120)
+            st, val = core.run_forked(_proc, arg, wall_limit=400)
         except core.ChildTimeout:
             outs.append({"status": "harness-timeout"})
             break
@@ -782,14 +782,14 @@ def _child_crash(unit: dict) -> dict:
 def run_unit(unit: dict) -> dict:
     if unit.get("kind") == "crash":
         try:
-            st, val = core.run_forked(_child_crash, unit, wall_limit=300)
+            st, val = core.run_forked(_child_crash, unit, wall_limit=900)
         except core.ChildTimeout:
             return {"status": "harness-timeout"}
         return val if st == "ok" else {"status": "harness-child-" + st,
                                        "detail": val}
     try:
         st, val = core.run_forked(_child, unit, wall_limit=unit.get("wall",
-                                                                    300))
+                                                                    1500))
     except core.ChildTimeout:
         return {"status": "harness-timeout"}
     if st == "ok":
